@@ -260,6 +260,7 @@ type ImgCfg struct {
 	Alphas    []string // nil = all alpha classes
 	MinSide   int
 	ThinPermille int // chance (per 1000) of a very wide or very tall thin picture (one side up to 16383)
+	LargePermille int // chance (per 1000) of a picture of 100,000-330,000 pixels (above every parallel-path threshold of the lossless codec)
 }
 
 var sizeBoundaries = []int{1, 2, 3, 7, 8, 9, 15, 16, 17, 31, 32, 33, 47, 48, 49, 63, 64, 65}
@@ -307,6 +308,11 @@ func DrawImg(t *rapid.T, cfg ImgCfg) *Img {
 		} else {
 			s.W, s.H = long, short
 		}
+	}
+	if cfg.LargePermille > 0 && func() bool { v := rapid.IntRange(0, 999).Draw(t, "large"); return v >= 700 && v < 700+cfg.LargePermille }() {
+		s.W = rapid.IntRange(260, 820).Draw(t, "largeW")
+		area := rapid.IntRange(100000, 330000).Draw(t, "largeArea")
+		s.H = (area + s.W - 1) / s.W
 	}
 	kinds, places, alphas := cfg.Kinds, cfg.Places, cfg.Alphas
 	if kinds == nil {
@@ -403,8 +409,10 @@ func (s *Img) SizeClass() string {
 		return "small"
 	case a <= 16384:
 		return "medium"
-	default:
+	case a < 100000:
 		return "large"
+	default:
+		return "huge(>=100000px)"
 	}
 }
 
